@@ -35,9 +35,22 @@ def is_prefix(t, part, whole):
     return len(part) % tsize(t) == 0 and bytes(whole[:len(part)]) == bytes(part)
 
 
-def eval_cut(rec, data, ex, lay, cut, marker, fs):
+def eval_cut(rec, data, ex, lay, cut, marker, fs, by_path=None):
+    """by_path = (directory, complete index bytes): the cut data file is read BY PATH with its complete .tdms_index beside it
+    (what a crashed LabVIEW run leaves behind) instead of as a stream"""
     from nptdms import TdmsFile
     blob = data[:cut]
+    if by_path is not None:
+        import os
+        path = os.path.join(by_path[0], 'cut.tdms')
+        with open(path, 'wb') as f:
+            f.write(blob)
+        with open(path + '_index', 'wb') as f:
+            f.write(by_path[1])
+        rec.label('read_by_path_with_complete_index')
+
+    def source():
+        return path if by_path is not None else io.BytesIO(blob)
     region = 'boundary'
     seg_of_cut = None
     for i, l in enumerate(lay):
@@ -66,9 +79,9 @@ def eval_cut(rec, data, ex, lay, cut, marker, fs):
     for mode in ('eager', 'lazy'):
         try:
             if mode == 'eager':
-                tf = TdmsFile.read(io.BytesIO(blob), raw_timestamps=True)
+                tf = TdmsFile.read(source(), raw_timestamps=True)
             else:
-                tf = TdmsFile.open(io.BytesIO(blob), raw_timestamps=True)
+                tf = TdmsFile.open(source(), raw_timestamps=True)
         except Exception as e:      # noqa
             rec.violation('no_failure:%s:raised' % mode, 'cut=%d (%s): %s' % (cut, region, describe_exc(e)), key=exc_key(e))
             continue
@@ -163,7 +176,7 @@ def check(case, rec):
         segs = list(fs['segments'])
         segs[-1] = dict(segs[-1], marker=True)
         fs['segments'] = segs
-    data, _i, lay = encode_file(fs)
+    data, index, lay = encode_file(fs, with_index=True)
     if fs.get('_kind') == 'daqmx' or case['fs'].get('_kind') == 'daqmx':
         from props.C03 import DaqEx
         ex = DaqEx(fs)
@@ -184,6 +197,11 @@ def check(case, rec):
         rec.label(*classes)
         rec.label('marker' if marker else 'explicit')
         eval_cut(rec, data, ex, lay, cut, marker, fs)
+        # a sample of the cuts inside raw data once more, read by path next to the complete index file
+        if cut % 4 == 1 and any(l['data_pos'] < cut < l['end'] for l in lay):
+            from vf.files import scratch_dir
+            with scratch_dir() as d:
+                eval_cut(rec, data, ex, lay, cut, marker, fs, by_path=(d, index))
 
 
 @st.composite
@@ -225,6 +243,10 @@ def jobs(tier):
                 Job('data_heavy_files_x_all_cuts', 'hyp',
                     lambda: cases(props=False, nodata_entries=False, max_n=5, max_chunks=4), n=200,
                     note='every cut offset 4..len(file) of each generated file'),
+                Job('stopped_channels_x_all_cuts', 'hyp',
+                    lambda: cases(props=False, stopped_first=True, interleaved=False, max_n=4, max_chunks=3, min_segments=2,
+                                  types=['i8', 'i16', 'i32', 'f64', 'ts', 'u64']), n=100,
+                    note='channels that stopped are re-listed as "no data" ahead of the running ones; every cut offset'),
                 Job('long_twin_files_x_cuts_in_last_segments', 'hyp', twin_cases, n=16,
                     note='every cut offset inside the last two segments of 100+ segment files'),
                 Job('daqmx_files_x_all_cuts', 'hyp', daqmx_cases, n=120,
@@ -236,6 +258,10 @@ def jobs(tier):
             Job('data_heavy_files_x_all_cuts', 'hyp',
                 lambda: cases(props=False, nodata_entries=False, max_n=5, max_chunks=4), n=6000,
                 note='every cut offset 4..len(file) of each generated file'),
+            Job('stopped_channels_x_all_cuts', 'hyp',
+                lambda: cases(props=False, stopped_first=True, interleaved=False, max_n=4, max_chunks=3, min_segments=2,
+                              types=['i8', 'i16', 'i32', 'f64', 'ts', 'u64']), n=3000,
+                note='channels that stopped are re-listed as "no data" ahead of the running ones; every cut offset'),
             Job('long_twin_files_x_cuts_in_last_segments', 'hyp', twin_cases, n=400,
                 note='every cut offset inside the last two segments of 100+ segment files'),
             Job('daqmx_files_x_all_cuts', 'hyp', daqmx_cases, n=4000,
